@@ -357,8 +357,8 @@ class Judge:
                 honoured = lr["next_sig"] == "OFF"
                 detail += "; last reset cycle in signature %s, next signature %s, ts_burst_complete=%d" % (
                     lr["sig"], lr["next_sig"], lr["burst"])
-                if honoured:
-                    pass
+                if honoured or "detect" not in missA:
+                    pass                 # an ignored reset always loses the partner detection; anything else is something new
                 elif lr["sig"] == "LFPS":
                     mech = "ready_after_reset_ignored_in_polling_lfps"
                 elif lr["next_sig"] != lr["sig"] or (lr["sig"] == "TS2" and lr["burst"]):
